@@ -1112,7 +1112,8 @@ def gen_e2e09_fit(rng, tier):
             "zero_mean": rng.random() < 0.3,
             # Box-Cox target transform incl. the lambda = 0 (log) corner and values next to it
             "boxcox": rng.choice([None, None, None, "0", "0", "0.5", "-0.3", "5e-8", "random"]),
-            "verbose": rng.random() < 0.25, "at_init": rng.random() < 0.25}
+            "verbose": rng.random() < 0.25, "at_init": rng.random() < 0.25, "at_bound": rng.random() < 0.3,
+            "yscale": rng.choice([None, None, None, 300, 3000])}
 
 
 class _NotANumber(Exception):
@@ -1137,6 +1138,9 @@ def _run_e2e09_fit(spec):
     k, mean, lik = build_model(kind, d, spec["zero_mean"])
     X = features_for(rng, kind, d, n, "none")
     y = np.array([[math.sin(3 * X[i, 0]) + 0.3 * rng.gauss(0, 1)] for i in range(n)])
+    if spec.get("yscale") and not spec.get("boxcox"):
+        y = y * float(spec["yscale"])   # targets that are not normalised (e.g. a runtime in milliseconds): large gradients
+        hist["fit_target_scale:%s" % spec["yscale"]] = 1
     bc = spec.get("boxcox")
     if bc is not None:
         from syne_tune.optimizer.schedulers.searchers.bayesopt.gpautograd.target_transform import BoxCoxTargetTransform
@@ -1162,6 +1166,17 @@ def _run_e2e09_fit(spec):
         hist["fit_at_initial_parameters"] = 1
     else:
         conv, vec = randomize_params(rng, lik, noise_lo=1e-3, noise_hi=1.0, span=1.5)
+    if spec.get("at_bound") and len(vec):
+        # a parameter exactly on a bound of its box (noise variance at its floor after a fit on noise-free data, ...): the gradient
+        # there is still the derivative of the criterion
+        box = lik.box_constraints_internal()
+        names_b = [(nm, ix) for nm, ix in conv.name_to_index.items() if box.get(nm) and any(b is not None for b in box[nm])]
+        if names_b:
+            nm, ix = rng.choice(sorted(names_b, key=lambda z: z[0]))
+            lo_b, hi_b = box[nm]
+            bval = lo_b if (hi_b is None or (lo_b is not None and rng.random() < 0.5)) else hi_b
+            vec[int(rng.choice(list(ix)))] = float(bval)
+            hist["fit_at_box_bound"] = 1
     if bc is not None and bc != "random":
         tt.set_boxcox_lambda(float(bc))
         _, pd0 = create_lbfgs_arguments(lik, [data])
@@ -1226,7 +1241,8 @@ def gen_e2e09_acq(rng, tier):
             "ard": rng.random() < 0.5, "acq": rng.choice(["ei", "ei", "lcb", "cei", "eipu"]), "normalize": rng.random() < 0.7,
             "shuffled": rng.random() < 0.5,
             # posterior samples of the objective's / the second output's surrogate (two-output acquisition functions)
-            "nsamp": rng.choice([[1, 1], [1, 1], [3, 1], [1, 2], [2, 3], [2, 2]])}
+            "nsamp": rng.choice([[1, 1], [1, 1], [3, 1], [1, 2], [2, 3], [2, 2]]),
+            "resource_kernel": rng.choice([None, None, None, "exp-decay-sum", "exp-decay-combined"])}
 
 
 def run_e2e09_acq(spec):
@@ -1249,7 +1265,16 @@ def run_e2e09_acq(spec):
     Ys = [dictionarize_objective(math.sin(3 * x[0]) + sum(z * z for z in x[1:]) + 0.1 * rng.gauss(0, 1)) for x in Xt]
     pend = [tuple(rng.random() for _ in range(d)) for _ in range(spec["pending"])]
     state = create_tuning_job_state(hp_ranges=hp, cand_tuples=list(Xt), metrics=Ys, pending_tuples=pend or None)
-    gpm = GaussianProcessRegression(kernel=Matern52(d, ARD=spec["ard"]), random_seed=spec["seed"] % 1000)
+    rk = spec.get("resource_kernel")
+    if rk and d >= 2 and spec["acq"] in ("ei", "lcb"):
+        # a kernel over (x, r) whose prior variance k((x, r), (x, r)) depends on the input: exponential-decay resource kernels
+        # (the last coordinate is the resource); every coordinate of the acquisition gradient is checked, also that one
+        from syne_tune.optimizer.schedulers.searchers.bayesopt.models.kernel_factory import resource_kernel_factory
+        kernel_r, mean_r = resource_kernel_factory(rk, kernel_x=Matern52(dimension=d - 1, ARD=spec["ard"]), mean_x=ScalarMeanFunction())
+        gpm = GaussianProcessRegression(kernel=kernel_r, mean=mean_r, random_seed=spec["seed"] % 1000)
+        hist["acq_resource_kernel:" + rk] = 1
+    else:
+        gpm = GaussianProcessRegression(kernel=Matern52(d, ARD=spec["ard"]), random_seed=spec["seed"] % 1000)
     params = gpm.get_params()
     for key in params:
         if key == "noise_variance":
@@ -1460,6 +1485,87 @@ def _run_two_output_acq(spec, rng, hist, hp, Xt, d, n):
 
 
 from syne_tune.optimizer.schedulers.searchers.bayesopt.models.model_base import BasePredictor as _BasePredictor  # noqa: E402
+
+
+def gen_gpm08(rng, tier):
+    return {"kind": "gpm08", "seed": rng.randrange(10 ** 9), "d": rng.choice([1, 2, 3]), "n1": rng.choice([3, 5, 6]),
+            "n2": rng.choice([2, 4, 5]), "t": rng.choice([1, 3, 6]), "ard": rng.random() < 0.6, "n_starts": rng.choice([1, 2]),
+            "fail_second_fit": rng.random() < 0.6}
+
+
+def run_gpm08(spec):
+    """the surrogate object itself (GaussianProcessRegression): whatever was done to it before - fit, parameters set by hand and the
+    posterior recomputed for the SAME data dictionary, a later fit on more data in which every restart of the optimiser fails - its
+    predictions are those of the posterior state built from scratch for the data it was last given and its current parameters"""
+    from autograd.tracer import isbox
+    from syne_tune.optimizer.schedulers.searchers.bayesopt.gpautograd.gp_regression import GaussianProcessRegression
+    from syne_tune.optimizer.schedulers.searchers.bayesopt.gpautograd.constants import OptimizationConfig
+    rng = random.Random(spec["seed"])
+    d = spec["d"]
+
+    class Flaky(Matern52):
+        fail_in_trace = False
+
+        def forward(self, X1, X2):
+            if self.fail_in_trace and isbox(self._covariance_scale()):
+                raise np.linalg.LinAlgError("simulated numerical failure inside the optimiser")
+            return super().forward(X1, X2)
+
+    def mk(n):
+        X = np.array([[rng.random() for _ in range(d)] for _ in range(n)]).reshape(n, d)
+        y = np.array([[math.sin(4 * X[i, 0]) + X[i, -1] + 0.1 * rng.gauss(0, 1)] for i in range(n)])
+        return X, y
+    X1, y1 = mk(spec["n1"])
+    Xn, yn = mk(spec["n2"])
+    X2, y2 = np.vstack([X1, Xn]), np.vstack([y1, yn])
+    Xs = np.array([[rng.random() for _ in range(d)] for _ in range(spec["t"])]).reshape(spec["t"], d)
+    kern = Flaky(dimension=d, ARD=spec["ard"])
+    gpm = GaussianProcessRegression(kernel=kern, random_seed=spec["seed"] % 1000,
+                                    optimization_config=OptimizationConfig(lbfgs_tol=1e-6, lbfgs_maxiter=15, verbose=False,
+                                                                           n_starts=spec["n_starts"]))
+    mon, hist = [], {"gpm08": 1}
+
+    def judge(step, data):
+        lik = gpm.likelihood
+        ref = GaussProcPosteriorState(data["features"], data["targets"], lik.mean, lik.kernel,
+                                      noise_variance=lik.get_noise_variance(as_ndarray=True))
+        m_ref, v_ref = (np.asarray(z, dtype=float) for z in ref.predict(Xs))
+        m, v = (np.asarray(z, dtype=float) for z in gpm.predict(Xs)[0])
+        nd = int(gpm.states[0].num_data)
+        if nd != data["features"].shape[0] or not (np.allclose(m.reshape(-1), m_ref.reshape(-1), rtol=1e-8, atol=1e-9)
+                                                   and np.allclose(v.reshape(-1), v_ref.reshape(-1), rtol=1e-8, atol=1e-10)):
+            mon.append(F("c08:surrogate-state-stale", f"GaussianProcessRegression after {step}: its posterior holds {nd} data points "
+                         f"(given {data['features'].shape[0]}); predictive means deviate by {float(np.max(np.abs(m.reshape(-1) - m_ref.reshape(-1)))):.3e} "
+                         f"from the posterior state built from scratch for that data and the current parameters", {"spec": spec}))
+            return False
+        return True
+
+    data1 = {"features": X1, "targets": y1}
+    gpm.fit(data1)
+    ok = judge("fit(data1)", data1)
+    if ok:
+        params = gpm.get_params()
+        for key in params:
+            if key == "noise_variance":
+                params[key] = math.exp(rng.uniform(math.log(1e-3), math.log(0.3)))
+            elif key.startswith("kernel_inv_bw"):
+                params[key] = math.exp(rng.uniform(-1, 1.2))
+            elif key == "kernel_covariance_scale":
+                params[key] = math.exp(rng.uniform(-1, 1))
+        gpm.set_params(params)
+        gpm.recompute_states(data1)   # the very same dictionary object as before
+        ok = judge("set_params + recompute_states(data1)", data1)
+        hist["gpm08:recompute-same-dict"] = 1
+    if ok:
+        data2 = {"features": X2, "targets": y2}
+        kern.fail_in_trace = bool(spec["fail_second_fit"])
+        try:
+            gpm.fit(data2)
+        finally:
+            kern.fail_in_trace = False
+        judge("fit(data2)" + (" with every restart of the optimiser failing" if spec["fail_second_fit"] else ""), data2)
+        hist["gpm08:second-fit:" + ("all-restarts-fail" if spec["fail_second_fit"] else "normal")] = 1
+    return {"lines": [], "monitor": mon, "meta": {"hist": hist, "nontrivial": True, "dev": {}}}
 
 
 def gen_e2e09_indep(rng, tier):
